@@ -13,6 +13,7 @@ import (
 	"io"
 	"math/rand"
 	"net"
+	"regexp"
 	"strconv"
 	"strings"
 	"sync"
@@ -20,6 +21,7 @@ import (
 )
 
 func init() {
+	commands["c12-conc"] = c12Conc
 	commands["c12"] = c12Run
 	commands["c12-hostile"] = c12Hostile
 }
@@ -711,4 +713,56 @@ func hostileStream(r *rand.Rand, stacking string) []byte {
 		b = []byte("POST http://origin.test/a HTTP/1.1\r\nHost: origin.test\r\nTransfer-Encoding: chunked\r\n\r\nffffffffffffffff\r\nhello\r\n0\r\n\r\n")
 	}
 	return b
+}
+
+// c12Conc: upstream failures that overlap in time on different client connections. Every client gets its own error
+// response: status, X-Forwarder-Error and a body that names its own target and nobody else's ("never ... mixed with another").
+func c12Conc(e *env) {
+	f, err := startFwd(fwdCfg{Name: "fwd", Localhost: "allow"})
+	if err != nil {
+		fatal("start: %v", err)
+	}
+	defer f.stop()
+	f.faults["*.refused.test:80"] = "refuse"
+	G, N := 32, 80
+	if v, err := strconv.Atoi(e.args["n"]); err == nil && v > 0 {
+		N = v
+	}
+	label := regexp.MustCompile(`g\d+i\d+\.refused\.test`)
+	var wg sync.WaitGroup
+	for g := 0; g < G; g++ {
+		g := g
+		wg.Add(1)
+		go func() {
+			defer wg.Done()
+			res := map[string]any{"ok": true, "client": g, "requests": N}
+			cl, err := dialRaw(f.addr)
+			if err != nil {
+				fatal("dial: %v", err)
+			}
+			defer cl.close()
+			for i := 0; i < N && res["ok"] == true; i++ {
+				host := fmt.Sprintf("g%di%d.refused.test", g, i)
+				cl.send([]byte("GET http://" + host + "/x HTTP/1.1\r\nHost: " + host + "\r\n\r\n"))
+				r, err := cl.recv("GET", 8*time.Second)
+				switch {
+				case err != nil:
+					res["ok"], res["why"] = false, fmt.Sprintf("request %d: no parsable response: %v", i, err)
+				case r.Status != 502 || r.first("X-Forwarder-Error") == "":
+					res["ok"], res["why"] = false, fmt.Sprintf("request %d: status %d, X-Forwarder-Error %q", i, r.Status, r.first("X-Forwarder-Error"))
+				default:
+					for _, l := range label.FindAllString(string(r.Body), -1) {
+						if l != host {
+							res["ok"], res["why"], res["body"] = false, fmt.Sprintf("request %d for %s: the error response carries text of the exchange for %s", i, host, l), string(trunc(r.Body, 300))
+						}
+					}
+					if res["ok"] == true && !strings.Contains(string(r.Body)+r.first("X-Forwarder-Error"), host) {
+						res["ok"], res["why"], res["body"] = false, fmt.Sprintf("request %d for %s: the error response does not name its own target", i, host), string(trunc(r.Body, 300))
+					}
+				}
+			}
+			e.emit(res)
+		}()
+	}
+	wg.Wait()
 }
